@@ -158,7 +158,7 @@ pub fn run(prop: &'static str, tier: Tier, seed: u64) -> i32 {
             let n = per_kind.entry(s.cfg.kind).or_insert(0);
             *n += 1;
             // W-TinyLFU's own property runs every closure on the no_std sketch as well
-            *n <= 2 || prop == "C10" || prop == "C08"
+            *n <= 2 || prop == "C10" || prop == "C08" || prop == "C01"
         });
     }
     let mut explores: Vec<Explore> = vec![];
@@ -363,7 +363,7 @@ pub fn run(prop: &'static str, tier: Tier, seed: u64) -> i32 {
         coverage["exhaustive"] = json!(exhaustive && pi["exhaustive"].as_bool().unwrap_or(false));
         coverage["second_feature_build"] = pi.clone();
         total_violations += pi["violations"].as_i64().unwrap_or(0) as i32;
-    } else if matches!(prop, "C05" | "C08" | "C10" | "C11") {
+    } else if matches!(prop, "C01" | "C05" | "C08" | "C10" | "C11") {
         coverage["second_feature_build"] = json!("not run (the no_std build is driven by ./check)");
     }
     let new_violations_total = total_violations;
